@@ -1610,6 +1610,7 @@ package yqlib
 //@   props C13
 //@   nosafety
 //@   noframe
+//@   overlay
 //@   at doTraverseMap: assert @merged-maps-are-read-like-the-map-itself {C13} arg0 == newMatches && arg1 == value.Alias && arg2 == wantedKey && arg3 == old(prefs) && arg4 == splat
 //@   at traverseMergeAnchor: assert @merge-lists-entry-by-entry {C13} arg0 == newMatches && arg2 == wantedKey && arg3 == old(prefs) && arg4 == splat
 
@@ -1705,9 +1706,9 @@ package yqlib
 
 
 //@ func createStringScalarNode
-//@   props C10
+//@   props C10 C08
 //@   nosafety
-//@   noframe
+//@   modifies \nothing
 //@   ensures @a-node {C11,C10} result != nil
 
 //@ func (*yamlDecoder).blankNodeWithComment
@@ -2074,6 +2075,7 @@ package yqlib
 //@   props C01 C02 C11
 //@   nopre
 //@   noframe
+//@   overlay
 //@   requires lhs != nil && rhs != nil
 //@   at subtractArray: assert @the-two-arrays-as-given {C01,C02} arg0 == lhs && arg1 == rhs
 //@   at return: assert @the-difference-of-two-arrays-is-what-subtractArray-computed {C01,C02} implies(result1 == nil && old(lhs.Tag) != "!!null" && old(lhs.Kind) == SequenceNode, calls(subtractArray) == 1 && result0 != nil && result0.Content == resultOf(subtractArray))
@@ -2158,6 +2160,7 @@ package yqlib
 //@   nosafety
 //@   nopre
 //@   noframe
+//@   overlay
 //@   at AddChildren: assert @the-left-entries-first {C01,C02} arg0 == target && arg1 == lhsC.Content
 //@   at findKeyInMap: assert @a-right-key-is-looked-up-among-the-result-keys {C01,C02} arg0 == target && arg1 == rhsC.Content[index]
 //@   at AddKeyValueChild: assert @a-new-key-is-appended-with-its-own-value {C01,C02} arg0 == target && arg1 == rhsC.Content[index] && arg2 == rhsC.Content[index+1] && resultOf(findKeyInMap) < 0
